@@ -74,3 +74,9 @@ r = items({"main.i": "t\n1 0 -1\nc see a &\n2 0 1\n\n"})
 report("a C comment line ending in ' &' glues the next input", ("CELL", ["2 0 1"]) not in r)
 r = items({"main.i": "t\n1 0 -1 &\nc note\nimp:n=1\n\n"})
 report("a C comment line after an '&' line cancels the continuation", ("CELL", ["imp:n=1"]) in r)
+# (8) C20/C11: text behind the blank line that ends the data block, inside a file pulled in by a read input
+#     (c74af97 repaired the top-level file only: recursion=True was exempt)
+r = items({"main.i": "t\n1 0 -1\n\n1 so 5\n\nread file=d.i\n", "d.i": "ctme 5\n\nprint\n"})
+report("text behind the data block's terminator inside a sub-file is read as data", ("DATA", ["print"]) in r)
+r = items({"main.i": "t\nread file=all.i\n", "all.i": "1 0 -1\n\n1 so 5\n\nmode n\n\nnps 7\n"})
+report("… also in a sub-file of the cell block that carries on to the data block", ("DATA", ["nps 7"]) in r)
